@@ -370,8 +370,6 @@ func VH_C06_ccw_Q() {
 	a, b, c := Point{p.d[1], p.d[2]}, Point{p.d[5], p.d[6]}, Point{p.d[9], p.d[10]}
 	area2 := (b.X-a.X)*(c.Y-a.Y) - (c.X-a.X)*(b.Y-a.Y)
 	vAssume(area2 != 0)
-	// the first point is the bottom-right-most vertex (right-most, lowest among those)
-	startBR := !(b.X > a.X || b.X == a.X && b.Y < a.Y) && !(c.X > a.X || c.X == a.X && c.Y < a.Y)
 	before := vhCopyData(p.d)
 	ccw := p.CCW()
 	vAssert("C06.ccw.receiver_unchanged", vhSameData(p.d, before))
